@@ -37,10 +37,14 @@ Reads(pfx) == << P(pfx \o "s", Var("s")), P(pfx \o "p", Var("p")), P(pfx \o "g",
 \* API calls at the top level of a template executed with a nil VarMap and no := before them
 MkTop(par) ==
   LET ops == par[3]
-      main == <<T("pre")>> \o [i \in 1..Len(ops) |-> OpStmt(ops[i], i)] \o
+      opl  == [i \in 1..Len(ops) |-> OpStmt(ops[i], i)]
+      \* the same calls one scope down (still no VarMap and no := above them): LetGlobal reaches the outermost scope
+      body == IF par[2] = <<>> THEN opl
+              ELSE <<RangeS("tr", "kv", "k", "v", ":=", ListE("ints", <<"0">>), opl \o <<P("ri3", IsSetE("x3"))>>)>>
+      main == <<T("pre")>> \o body \o
               <<P("zi3", IsSetE("x3")), P("zis", IsSetE("s")), P("zg", Var("g")), T("post")>>
   IN [ts |-> <<Tm("main", "", <<>>, main)>>, globals |-> [NoVarsMap EXCEPT !["g"] = "glG"],
-      runs |-> <<RunR("main", NoVarsMap, "D")>>, tag |-> "nilvars|" \o PathTag(ops)]
+      runs |-> <<RunR("main", NoVarsMap, "D")>>, tag |-> "nilvars|" \o (IF par[2] = <<>> THEN "" ELSE "inrange|") \o PathTag(ops)]
 TopOps == {"Let-x3", "Let-s", "SetOrLet-x3", "SetOrLet-g", "LetGlobal-x3", "Resolve-g", "Resolve-undef", "Context", "Set-undef"}
 
 MkC(par) ==
@@ -58,5 +62,5 @@ MkC(par) ==
 
 OpSeqs == UNION {[1..n -> Ops] : n \in 1..2}
 cParams == {p \in {"site"} \X PathsUpTo(SiteKinds, Depth) \X OpSeqs : Len(p[2]) <= 1 \/ Len(p[3]) = 1}
-           \cup ({"top"} \X {<<>>} \X UNION {[1..n -> TopOps] : n \in 1..2})
+           \cup ({"top"} \X {<<>>, <<"range">>} \X UNION {[1..n -> TopOps] : n \in 1..2})
 =============================================================================
